@@ -9,15 +9,16 @@ replay = base.s_replay
 def run(tier):
     fa, t = ("c13a", 300) if tier == "quick" else ("c13a3", 2400)
     jobs = [
-        chrun.SJob("vlib.sh.c13", fa, base.parts(30), t,
+        chrun.SJob("vlib.sh.c13", fa, base.parts(34), t,
                    what="as_ast-based entry points (as_ast, MetaData value/key, AsPandasDF/AsROOTTTree/AsParquetFiles/AsAwkwardArray column, file and tree "
-                        "names) x value kinds {str, int, float, bool, None, bytes, list, tuple, dict, nested}; strings over a 20-character class alphabet "
+                        "names) x value kinds {str, int, float, bool, None, bytes, list, tuple, dict, nested, one-item tuple, one-item and empty tuples inside containers}; strings over a 20-character class alphabet "
                         "(quotes, backslash, newline, CR, NUL, escapes letters, brackets, operators, '#', unicode BMP/astral, tab, DEL) of length <=%d, ints and "
                         "floats from edge tables (the text reaches the C parser, so they are case-split, not unbounded); oracle: ast.literal_eval gives an equal "
                         "value of the same type" % (2 if tier == "quick" else 3)),
-        chrun.SJob("vlib.sh.c13", "c13b", base.parts(5), t,
+        chrun.SJob("vlib.sh.c13", "c13b", base.parts(7), t,
                    what="as_literal-based entry points (declared default of a method at depth 0 and inside a nested typed collection lambda, default of a "
-                        "func_adl_callable function, captured closure variable, captured global); symbolic: the value as Union[int (unbounded), bool, "
+                        "func_adl_callable function, captured closure variable, captured global; through the whole public path with real function objects: a closure variable used only "
+                        "inside the lambda of a nested Select on an untyped sequence, a global read by a function object that is handed over a second time after the global changed); symbolic: the value as Union[int (unbounded), bool, "
                         "str (len<=3), float, bytes (len<=3)] plus 7 concrete non-scalar stand-ins; oracle: ValueError only for non-transportable kinds, every "
                         "emitted Constant transportable, the embedded constant is the value itself"),
     ]
